@@ -45,3 +45,11 @@ CHECKS["C06"] = {
                     "histories respect documented preconditions (see sim/tsg_common.hpp applyOp): no clearRefinement on never-loaded grids, construction without conformal maps, anisotropic refinement without level limits, full-range copies while constructing"],
     "determinism_runs": 1500, "exec_timeout": 120, "batch_timeout": 600,
 }
+
+CHECKS["C06"].update({
+    "level_text": "seeded exploration of grid histories written and read through a simulated medium (chunked streams; simulated file system with short reads/writes and EINTR), "
+                  "with an observational-equality oracle, byte-identical re-write, binary/ASCII agreement and a seeded continuation of the history applied to original and restored grid",
+    "level_note": "samples histories and medium behaviours; a clean batch is evidence, not proof. Trusted: the observe() digest (public getters only), ASan/UBSan; the medium faults mostly exercise libstdc++, "
+                  "the detecting power against TASMANIAN changes comes from the histories and the continuation oracle",
+    "technique": "deterministic simulation of the persistence medium (simulated file system and chunked streams with benign I/O faults) over seeded operation histories, checked against the un-serialised twin",
+})
